@@ -241,17 +241,18 @@ def run_model(cases_path, out_path, jobs=1):
 
 
 # ---------------------------------------------------------------- harness
-CONFIGS = {
-    'default': [],
-    'checks': ['checks'],
-    'explanations': ['explanations'],
-    'checks+explanations': ['checks', 'explanations'],
+CONFIGS = {   # name -> (cargo features, profile)
+    'default': ([], 'release'),
+    'checks': (['checks'], 'release'),
+    'explanations': (['explanations'], 'release'),
+    'checks+explanations': (['checks', 'explanations'], 'release'),
+    'default-dev': ([], 'dev'),       # debug build: overflow checks and debug assertions on
 }
 
 
-def build_harness(config='default', profile='release'):
-    feats = CONFIGS[config]
-    tdir = os.path.join(HARNESS, 'target', config.replace('+', '_'))
+def build_harness(config='default', profile=None):
+    feats, profile = CONFIGS[config]
+    tdir = os.path.join(HARNESS, 'target', config.replace('+', '_').replace('-dev', ''))
     with Lock('cargo-' + config.replace('+', '_')):
         lock = os.path.join(HARNESS, 'Cargo.lock')
         try:
@@ -264,10 +265,6 @@ def build_harness(config='default', profile='release'):
         if feats:
             cmd += ['--features', ','.join(feats)]
         env = {'RUSTFLAGS': '--cfg %s -Awarnings' % GUARD}
-        if REPO != '/repo':
-            # scratch copy: point the path dependency somewhere else
-            env['VERIF_REPO'] = REPO
-            cmd += ['--config', 'patch.crates-io.slotted-egraphs-derive.path="%s/slotted-egraphs-derive"' % REPO]
         rc, o, e = sh(cmd, cwd=HARNESS, timeout=3000, env=env)
         if rc != 0:
             raise Broken('harness build failed against the current /repo tree (%s)' % config, (o + e)[-4000:])
